@@ -19,7 +19,7 @@ META = {
         "<SolarDay as Tyme>::next(n), |n| <= 45, = closed form refcal::near (lemma 14.L; 01.c/01.d/01.g); other uses are flagged, never assumed away",
         "AbstractCulture::index_of as a 32-bit computation for |index| < 2^30 (engine B: the real one is the mathematical mod)",
         "stub fmt_empty for std::fmt::format (error payloads)",
-        "quick tier: 3 of the 7 weekdays of the 1st (rotated by VERIF_SEED); thorough: all 7",
+        "quick tier: Monday (the real weekday of 1582-10-01) plus one more of the 7 weekdays of the 1st, rotated by VERIF_SEED; thorough: all 7",
     ],
 }
 
@@ -28,7 +28,7 @@ def jobs(tier, seed):
     T = tier == "thorough"
     rnd = random.Random(seed)
     J.append(Job("14.L/near", "c14::c14l_near", [], est=15, clause="14.L", bound="every date, |n| <= 45"))
-    wds = list(range(7)) if T else sorted(set([1] + rnd.sample([0, 2, 3, 4, 5, 6], 2)))   # 1 = Monday: the real weekday of 1582-10-01
+    wds = list(range(7)) if T else sorted(set([1] + rnd.sample([0, 2, 3, 4, 5, 6], 1)))   # 1 = Monday: the real weekday of 1582-10-01
     for wd in wds:
         J.append(Job("14.a/weeks/wd%d" % wd, "c14::c14a_weeks", [1, 9999, wd], stubs=STUBS, unwind=9, est=250, timeout=1500 if not T else 2400, mem_gb=4,
                      clause="14.a", bound="every month of years 1..9999, every start, every index; 1st of the month on weekday %d" % wd))
